@@ -77,6 +77,7 @@ Proof.
     + apply (J7 s I u q m0).
   - intros u. rewrite HT. destruct (Nat.eqb_spec u t) as [->|Hne']; cbn [started x']; [discriminate|].
     apply (J8 s I u).
+  - intros _ H0. rewrite Htot in H0. pose proof (total_ge (ths s) t). unfold T, getth in *. lia.
 Qed.
 
 (* ---------- AFree ---------- *)
@@ -114,4 +115,5 @@ Proof.
   - intros u q m0. rewrite HT. destruct (Nat.eqb_spec u t) as [->|Hne']; cbn [refs x']; rewrite Hr0; lia.
   - intros u. rewrite HT. destruct (Nat.eqb_spec u t) as [->|Hne']; cbn [started x']; [discriminate|].
     apply (J8 s I u).
+  - discriminate.
 Qed.
